@@ -151,7 +151,9 @@ def decompress_code(codedata):
                 out_i += 1
         in_i += 1
 
-    code = bytes(out).strip(b'\x00')
+    # Keep only what the stream produced. (NUL characters at either end of
+    # the text are part of the text: the format spells them 00 00.)
+    code = bytes(out[:out_i])
     if code.endswith(PICO8_FUTURE_CODE1):
         code = code[:-len(PICO8_FUTURE_CODE1)]
         if code[-1] == b'\n'[0]:
